@@ -221,7 +221,7 @@ b('preview-flags-or', ['C12', 'C20'], 'src/terminal.go', "\t\tif flags.plus {\n\
 b('equals-field-order', ['C11'], 'src/ansi.go', "return s.fg == t.fg && s.bg == t.bg && s.attr == t.attr && s.lbg == t.lbg && s.url == t.url", "return s.url == t.url && s.lbg == t.lbg && s.attr == t.attr && s.bg == t.bg && s.fg == t.fg")
 
 # ---- round 7 rules: broken variants (beyond the reverse patches of D19..D39) and behaviour-preserving edits
-v('c02r9-v1-classified-fold', 'C02', 'C02-R9', 'src/algo/algo.go', "\t\t\t} else if char > unicode.MaxASCII {\n\t\t\t\tchar = unicode.To(unicode.LowerCase, char)\n\t\t\t}\n\t\t}\n\n\t\tif normalize {\n\t\t\tchar = normalizeRune(char)\n\t\t}\n\t\tif char == pchar {", "\t\t\t} else if char > unicode.MaxASCII && unicode.IsUpper(char) {\n\t\t\t\tchar = unicode.To(unicode.LowerCase, char)\n\t\t\t}\n\t\t}\n\n\t\tif normalize {\n\t\t\tchar = normalizeRune(char)\n\t\t}\n\t\tif char == pchar {")
+v('c02r9-v1-classified-fold', 'C02', 'C02-R9', 'src/algo/algo.go', "\t\t\t} else if char > unicode.MaxASCII {\n\t\t\t\tchar = unicode.To(unicode.LowerCase, char)\n\t\t\t}\n\t\t}\n\t\tif normalize {\n\t\t\tchar = normalizeRune(char)\n\t\t}\n\t\tpchar := pattern[indexAt(pidx, lenPattern, forward)]", "\t\t\t} else if char > unicode.MaxASCII && unicode.IsUpper(char) {\n\t\t\t\tchar = unicode.To(unicode.LowerCase, char)\n\t\t\t}\n\t\t}\n\t\tif normalize {\n\t\t\tchar = normalizeRune(char)\n\t\t}\n\t\tpchar := pattern[indexAt(pidx, lenPattern, forward)]")
 v('c03r5-prefix-score-plus-one', 'C03', 'C03-R5', 'src/algo/algo.go', "\treturn Result{trimmedLen, trimmedLen + lenPattern, score}, nil\n}\n\n// SuffixMatch", "\treturn Result{trimmedLen, trimmedLen + lenPattern, score + int(bonusBoundaryWhite)}, nil\n}\n\n// SuffixMatch")
 v('c03r6-history-keeps-delimiter-bonus', 'C03', 'C03-R6', 'src/algo/algo.go', "\tcase \"history\":\n\t\tbonusBoundaryWhite = bonusBoundary\n\t\tbonusBoundaryDelimiter = bonusBoundary\n", "\tcase \"history\":\n\t\tbonusBoundaryWhite = bonusBoundary\n")
 v('c18r8-fatal-keeps-looping', 'C18', 'C18-R8', 'src/terminal.go', "\t\t\t\tcase reqClose, reqQuit, reqPrintQuery, reqBecome, reqFatal:", "\t\t\t\tcase reqClose, reqQuit, reqPrintQuery, reqBecome:")
@@ -239,7 +239,7 @@ v('c18r9-append-uncapped', 'C18', 'C18-R9', 'src/history.go', "\tif len(lines) >
 v('c06r9-stream-despite-tail', 'C08', 'C06-R9', 'src/core.go', " && !opts.Sync && opts.Tail == 0\n", " && !opts.Sync\n")
 v('c13r10-push-outside-lock', 'C13', 'C13-R10', 'src/chunklist.go', "\tret := cl.lastChunk().push(cl.trans, data)\n\tcl.mutex.Unlock()\n\treturn ret\n", "\tlast := cl.lastChunk()\n\tcl.mutex.Unlock()\n\treturn last.push(cl.trans, data)\n")
 
-b('v1-range-test-order', ['C01', 'C02', 'C03', 'C05'], 'src/algo/algo.go', "\t\t\tif char >= 'A' && char <= 'Z' {\n\t\t\t\tchar += 32\n\t\t\t} else if char > unicode.MaxASCII {\n\t\t\t\tchar = unicode.To(unicode.LowerCase, char)\n\t\t\t}\n\t\t}\n\n\t\tif normalize {\n\t\t\tchar = normalizeRune(char)\n\t\t}\n\t\tif char == pchar {", "\t\t\tif char <= 'Z' && char >= 'A' {\n\t\t\t\tchar += 32\n\t\t\t} else if char > unicode.MaxASCII {\n\t\t\t\tchar = unicode.To(unicode.LowerCase, char)\n\t\t\t}\n\t\t}\n\n\t\tif normalize {\n\t\t\tchar = normalizeRune(char)\n\t\t}\n\t\tif char == pchar {")
+b('v1-range-test-order', ['C01', 'C02', 'C03', 'C05'], 'src/algo/algo.go', "\t\t\tif char >= 'A' && char <= 'Z' {\n\t\t\t\tchar += 32\n\t\t\t} else if char > unicode.MaxASCII {\n\t\t\t\tchar = unicode.To(unicode.LowerCase, char)\n\t\t\t}\n\t\t}\n\t\tif normalize {\n\t\t\tchar = normalizeRune(char)\n\t\t}\n\t\tpchar := pattern[indexAt(pidx, lenPattern, forward)]", "\t\t\tif char <= 'Z' && char >= 'A' {\n\t\t\t\tchar += 32\n\t\t\t} else if char > unicode.MaxASCII {\n\t\t\t\tchar = unicode.To(unicode.LowerCase, char)\n\t\t\t}\n\t\t}\n\t\tif normalize {\n\t\t\tchar = normalizeRune(char)\n\t\t}\n\t\tpchar := pattern[indexAt(pidx, lenPattern, forward)]")
 b('stream-tail-lss-one', ['C06', 'C08', 'C13'], 'src/core.go', " && !opts.Sync && opts.Tail == 0\n", " && !opts.Sync && opts.Tail < 1\n")
 b('init-defaults-swapped', ['C03', 'C05'], 'src/algo/algo.go', "\tdelimiterChars = \"/,:;|\"\n\tinitialCharClass = charWhite\n\tswitch scheme {", "\tinitialCharClass = charWhite\n\tdelimiterChars = \"/,:;|\"\n\tswitch scheme {")
 b('req-stop-if-chain', ['C18', 'C07', 'C09'], 'src/terminal.go', "\t\t\t\tswitch event {\n\t\t\t\tcase reqClose, reqQuit, reqPrintQuery, reqBecome, reqFatal:\n\t\t\t\t\t// The session ends with this request; stop processing keys\n\t\t\t\t\tlooping = false\n\t\t\t\t}", "\t\t\t\tif event == reqClose || event == reqQuit || event == reqPrintQuery || event == reqBecome || event == reqFatal {\n\t\t\t\t\tlooping = false\n\t\t\t\t}")
